@@ -6,8 +6,9 @@ through the codec (`SketchSlice::read_*`, `read_exact`) must be discharged by th
 (guards that dominate the site, callee post-conditions, field invariants).  A site is a VIOLATION only on
 positive evidence: byte-tainted operand, interval not produced by widening, obligation fails.
 """
-from .. import ir, absint
+from .. import ir, absint, sym, formula
 from ..main import Result
+from . import common as C
 
 ENTRY_OWNERS = {
     "hll::sketch::HllSketch": ["deserialize"],
@@ -84,6 +85,110 @@ def short_src(t):
     return "%s:%s" % ("::".join(seg[-2:]), name)
 
 
+INT_TYPES = ("u8", "u16", "u32", "u64", "usize", "i8", "i16", "i32", "i64", "isize", "u128", "i128")
+
+
+def nan_rule(prog, res, ents):
+    """C14.N: in a family whose code orders floats with partial_cmp and panics on an unordered pair, every float read from the
+    image that reaches the returned object as a float must pass a NaN-rejecting check on every path from the read to that use"""
+    sink_mods = {}
+    for f in prog.fns.values():
+        if f.promoted:
+            continue
+        names = [(site.get("callee") or "") for _, site in f.calls()]
+        if any(n.rsplit("::", 1)[-1] == "partial_cmp" for n in names) and any("panicking" in n or n.rsplit("::", 1)[-1] in ("expect", "unwrap", "panic_fmt", "begin_panic") for n in names):
+            sink_mods.setdefault(f.id.split("::")[0], f.id)
+    rejecters = set()
+    for f in prog.fns.values():
+        if f.promoted or not any((site.get("callee") or "").rsplit("::", 1)[-1] == "is_nan" for _, site in f.calls()):
+            continue
+        rets = [b.idx for b in f.blocks if b.term[0] == "return" and not b.cleanup]
+        if len(rets) != 1:
+            continue
+        e = sym.Sym(prog, f).at(rets[0]).local(0)
+        try:
+            a = formula.evaluate(e, {"@fn:is_nan": lambda *x: 1, "@fn:is_infinite": lambda *x: 0, "@prog": prog})
+            b = formula.evaluate(e, {"@fn:is_nan": lambda *x: 0, "@fn:is_infinite": lambda *x: 0, "@prog": prog})
+        except formula.Uneval:
+            continue
+        if isinstance(a, tuple) and a[:2] == ("$variant", "Err") and isinstance(b, tuple) and b[:2] == ("$variant", "Ok"):
+            rejecters.add(f.id)
+    n_reads = 0
+    for ent in ents:
+        mod = ent.split("::")[0]
+        if mod not in sink_mods:
+            continue
+        for g in C.reach_from(prog, [ent]):
+            if g.id.split("::")[0] != mod:
+                continue
+            reads = [(b, site) for b, site in g.calls() if (site.get("callee") or "").rsplit("::", 1)[-1].startswith(("read_f64", "read_f32"))]
+            if not reads:
+                continue
+            s = sym.Sym(prog, g)
+
+            def project(e):
+                """field k of (select c, (a0, a1), (b0, b1)) -> select c, ak, bk"""
+                if e[0] == "field" and isinstance(e[1], tuple) and e[2].isdigit():
+                    base = e[1]
+                    if base[0] == "select":
+                        return ("select", base[1], project(("field", base[2], e[2])), project(("field", base[3], e[2])))
+                    if base[0] == "agg" and base[1] == "tuple" and int(e[2]) < len(base[2]):
+                        return base[2][int(e[2])]
+                return e
+
+            def has_float_use(e, tag, under_int=False):
+                if not isinstance(e, tuple) or not e:
+                    return False
+                if e[0] == "field":
+                    e = project(e)
+                if e[0] == "cast" and e[2] in INT_TYPES:
+                    return False
+                if e[0] == "call" and isinstance(e[1], str) and e[1] == tag:
+                    return True
+                return any(has_float_use(x, tag) for x in e[1:] if isinstance(x, tuple)) or any(
+                    has_float_use(y, tag) for x in e[1:] if isinstance(x, tuple) and x and not isinstance(x[0], str) for y in x)
+
+            calls = []
+            for b, site in g.calls():
+                nm = site.get("callee") or ""
+                args = [s.at(b, "t").operand(a) for a in site["args"]]
+                calls.append((b, nm, args))
+            for rb, rsite in reads:
+                tag = "%s@%s#%d" % ((rsite.get("callee") or "").rsplit("::", 1)[-1], g.item_name, rb)
+                checkers = set(b for b, nm, args in calls if (nm in rejecters or nm.rsplit("::", 1)[-1] == "is_nan") and any(has_float_use(a, tag) for a in args))
+                uses = [(b, nm) for b, nm, args in calls if nm not in rejecters and nm.rsplit("::", 1)[-1] not in ("is_nan", "is_infinite", "is_finite", "map_err", "branch", "from_residual", "insufficient_data")
+                        and b != rb and any(has_float_use(a, tag) for a in args)]
+                if not uses:
+                    continue
+                n_reads += 1
+                res.obligations += 1
+                bad = None
+                for ub, unm in uses:
+                    seen, st = set(), [x for x in g.succs(rb) if not g.blocks[x].cleanup]
+                    hit = False
+                    while st:
+                        x = st.pop()
+                        if x in seen or x in checkers:
+                            continue
+                        seen.add(x)
+                        if x == ub:
+                            hit = True
+                            break
+                        st.extend(y for y in g.succs(x) if not g.blocks[y].cleanup)
+                    if hit:
+                        bad = unm
+                        break
+                if bad is None:
+                    res.discharged += 1
+                else:
+                    res.violate("C14.N", "C14.N|%s|%s" % (g.id, (rsite.get("callee") or "").rsplit("::", 1)[-1] + "->" + bad.rsplit("::", 1)[-1]),
+                                "%s: a float read from the image (%s) reaches %s without a NaN-rejecting check on some path; %s panics on an unordered pair" % (
+                                    g.id, tag, bad, sink_mods[mod]), g.id, rsite.get("span"))
+    res.rule("C14.N", n_reads, 6, "float reads that reach the returned object in NaN-intolerant families")
+    res.extra["nan_rejecters"] = sorted(rejecters)
+    res.extra["nan_intolerant"] = sink_mods
+
+
 def run(prog, ctx):
     res = Result("C14")
     ents, missing = entries(prog)
@@ -98,6 +203,8 @@ def run(prog, ctx):
     kinds = {}
     accepted = []
     n_tainted = 0
+    nan_rule(prog, res, ents)
+    nan_obl = res.obligations
     for o in an.obligations:
         b = srcs(o.taint)
         if not b:
@@ -133,7 +240,7 @@ def run(prog, ctx):
         else:
             res.undecided += 1
             kinds[o.kind][3] += 1
-    res.obligations = n_tainted
+    res.obligations = n_tainted + nan_obl
     res.extra["per_sink_class"] = {k: {"obligations": v[0], "discharged": v[1], "violations": v[2], "undecided": v[3]} for k, v in kinds.items()}
     res.extra["analysis"] = an.stats
     res.extra["accepted_invariants"] = accepted
